@@ -16,6 +16,7 @@
 -/
 import RosuModel.Props.C19IeeeErr
 import RosuModel.Props.C19Ieee
+import RosuModel.Props.C19IeeeBound
 namespace Rosu.C19
 open Rosu Rosu.Curve Rosu.FErr
 
@@ -266,5 +267,124 @@ theorem idxOfDist_bracket_float (lengths : List Float) (hs : Sorted lengths) (d 
       (0 < idxOfDist lengths d → ∃ d0, lengths[idxOfDist lengths d - 1]? = some d0 ∧ Scalar.le d0 d = true ∧
         ((Scalar.lt d0 d = true ∧ Scalar.lt d d1 = true) ∨ Scalar.eq d1 d = true)) :=
   idxOfDist_bracket_ieee lengths hs d a b ha hb hlo hhi
+
+/-! ## (2) `interpolate_vertices ∘ idx_of_dist`: the position for a distance inside the curve -/
+
+/-- the no-overflow side conditions of `interpolate_err_float32` for the segment `[p0, p1]`, `[d0, d1]` and the distance `d`:
+the two result coordinates, the `f64` weight and the `f64` denominator are finite. NOT derived here (see the file header of
+the report: for `Bounded19` vertices and finite non-negative lengths they do hold, but the derivation needs "no overflow from
+a bound on the exact value" for `f32 ⊕`, `f64 ⊖` and `as f32`, which Lemmas/FloatErrRange.lean has for `⊗`, `⊘` only). -/
+def SegFinite (p0 p1 : Pos Float32) (d d0 d1 : Float) : Prop :=
+  (interpPos p0 p1 d d0 d1).x.isFinite = true ∧ (interpPos p0 p1 d d0 d1).y.isFinite = true ∧
+  ((d - d0) / (d1 - d0)).isFinite = true ∧ (d1 - d0).isFinite = true
+
+/-- **C19 on IEEE floats: the position `interpolate_vertices path lengths (idx_of_dist lengths d) d`** (what `position_at`
+evaluates after `progress_to_dist`) for a curve `path`, `lengths` of equal length, `lengths` weakly sorted numbers, vertices
+bounded by `2¹⁹`, and a distance `lengths[0] <= d <= last`. The bracket `d0 <= d <= d1` and the non-degeneracy the interpolation
+lemma assumes are DERIVED from the search. The call returns a position `p` and, with `i = idx_of_dist lengths d`, exactly one of
+* `i = 0` (a hit of `lengths[0]`): `p = path[0]`;
+* `0 < i`, the segment is degenerate (`|d0 − d1| <= EPSILON`): `p = path[i−1]`;
+* `0 < i`, `d0 = lengths[i−1] <= d <= d1 = lengths[i]`, `d0 < d1`, `p = interpPos p0 p1 d d0 d1` and per coordinate
+  `|p.x − (x0 + w (x1 − x0))| ≤ interpBound` (`< 0.21876` px) for the exact weight `w = (d − d0)/(d1 − d0) ∈ [0, 1]`.
+Only the no-overflow conditions `SegFinite` of the non-degenerate bracketing segment remain as a hypothesis. -/
+theorem positionAt_dist_err_float32 (path : List (Pos Float32)) (lengths : List Float) (d a b : Float)
+    (hlen : path.length = lengths.length) (hs : Sorted lengths) (hbd : ∀ p ∈ path, C16.Bounded19 p)
+    (ha : lengths[0]? = some a) (hb : lengths.getLast? = some b)
+    (hlo : Scalar.le a d = true) (hhi : Scalar.le d b = true)
+    (hfin : ∀ (p0 p1 : Pos Float32) (d0 d1 : Float), path[idxOfDist lengths d - 1]? = some p0 →
+      path[idxOfDist lengths d]? = some p1 → lengths[idxOfDist lengths d - 1]? = some d0 →
+      lengths[idxOfDist lengths d]? = some d1 →
+      Scalar.le (Scalar.abs (d0 - d1)) (Scalar.eps : Float) = false → SegFinite p0 p1 d d0 d1) :
+    ∃ p, interpolateVertices path lengths (idxOfDist lengths d) d = .ok p ∧
+      ((idxOfDist lengths d = 0 ∧ path[0]? = some p) ∨
+       (0 < idxOfDist lengths d ∧ path[idxOfDist lengths d - 1]? = some p ∧
+         ∃ d0 d1, lengths[idxOfDist lengths d - 1]? = some d0 ∧ lengths[idxOfDist lengths d]? = some d1 ∧
+           Scalar.le (Scalar.abs (d0 - d1)) (Scalar.eps : Float) = true) ∨
+       (0 < idxOfDist lengths d ∧ ∃ p0 p1 d0 d1, path[idxOfDist lengths d - 1]? = some p0 ∧
+         path[idxOfDist lengths d]? = some p1 ∧ lengths[idxOfDist lengths d - 1]? = some d0 ∧
+         lengths[idxOfDist lengths d]? = some d1 ∧
+         Scalar.le d0 d = true ∧ Scalar.le d d1 = true ∧ toRat d0 < toRat d1 ∧
+         p = interpPos p0 p1 d d0 d1 ∧
+         (0 ≤ (toRat d - toRat d0) / (toRat d1 - toRat d0) ∧ (toRat d - toRat d0) / (toRat d1 - toRat d0) ≤ 1) ∧
+         |toRat32 p.x - (toRat32 p0.x + (toRat d - toRat d0) / (toRat d1 - toRat d0) * (toRat32 p1.x - toRat32 p0.x))|
+           ≤ interpBound ∧
+         |toRat32 p.y - (toRat32 p0.y + (toRat d - toRat d0) / (toRat d1 - toRat d0) * (toRat32 p1.y - toRat32 p0.y))|
+           ≤ interpBound)) := by
+  obtain ⟨hil, d1, hd1, hle1, _, _, hpos⟩ := idxOfDist_bracket_float lengths hs d a b ha hb hlo hhi
+  generalize idxOfDist lengths d = i at *
+  rcases Nat.eq_zero_or_pos i with hi | hi
+  · subst hi
+    cases path with
+    | nil => simp at hlen; omega
+    | cons p t => exact ⟨p, interpolate_idx_zero p t lengths d, Or.inl ⟨rfl, rfl⟩⟩
+  · obtain ⟨d0, hd0, hle0, _⟩ := hpos hi
+    have hp1 : path[i]? = some path[i] := List.getElem?_eq_getElem (by omega)
+    have hp0 : path[i - 1]? = some path[i - 1] := List.getElem?_eq_getElem (by omega)
+    cases hdeg : Scalar.le (Scalar.abs (d0 - d1)) (Scalar.eps : Float)
+    · obtain ⟨hfx, hfy, hw, hm⟩ := hfin _ _ d0 d1 hp0 hp1 hd0 hd1 hdeg
+      have hb0 := hbd _ (List.mem_of_getElem? hp0)
+      have hb1 := hbd _ (List.mem_of_getElem? hp1)
+      obtain ⟨he, hr, hx, hy⟩ := interpolate_err_float32 path lengths i d _ _ d0 d1 (by omega) hp1 hp0 hd0 hd1 hdeg
+        hfx hfy hw hm hle0 hle1 hb0 hb1
+      have l01 : toRat d0 < toRat d1 := by
+        unfold interpPos at hfx; rw [interp_x] at hfx
+        exact (interp_coord_err_float32 _ _ d d0 d1 hfx hw hm hle0 hle1 hb0.1 hb1.1).1
+      exact ⟨_, he, Or.inr (Or.inr ⟨hi, _, _, d0, d1, hp0, hp1, hd0, hd1, hle0, hle1, l01, rfl, hr, hx, hy⟩)⟩
+    · exact ⟨_, interpolate_degenerate path lengths i d _ _ d0 d1 (by omega) hp1 hp0 hd0 hd1 hdeg,
+        Or.inr (Or.inl ⟨hi, hp0, d0, d1, hd0, hd1, hdeg⟩)⟩
+
+/-- **… hence within `1/4` px per coordinate of the polyline**: the position is within `1/4` px, per coordinate, of a point
+`p0 + w (p1 − p0)`, `w ∈ [0, 1]`, of a segment `[path[k], path[k+1]]` of the path (or it is the vertex `path[k]` itself:
+`p1 = p0`). -/
+theorem positionAt_dist_on_polyline_float32 (path : List (Pos Float32)) (lengths : List Float) (d a b : Float)
+    (hlen : path.length = lengths.length) (hs : Sorted lengths) (hbd : ∀ p ∈ path, C16.Bounded19 p)
+    (ha : lengths[0]? = some a) (hb : lengths.getLast? = some b)
+    (hlo : Scalar.le a d = true) (hhi : Scalar.le d b = true)
+    (hfin : ∀ (p0 p1 : Pos Float32) (d0 d1 : Float), path[idxOfDist lengths d - 1]? = some p0 →
+      path[idxOfDist lengths d]? = some p1 → lengths[idxOfDist lengths d - 1]? = some d0 →
+      lengths[idxOfDist lengths d]? = some d1 →
+      Scalar.le (Scalar.abs (d0 - d1)) (Scalar.eps : Float) = false → SegFinite p0 p1 d d0 d1) :
+    ∃ (p : Pos Float32) (k : Nat) (p0 p1 : Pos Float32) (w : ℚ),
+      interpolateVertices path lengths (idxOfDist lengths d) d = .ok p ∧
+      path[k]? = some p0 ∧ (path[k + 1]? = some p1 ∨ p1 = p0) ∧ 0 ≤ w ∧ w ≤ 1 ∧
+      |toRat32 p.x - (toRat32 p0.x + w * (toRat32 p1.x - toRat32 p0.x))| < 1 / 4 ∧
+      |toRat32 p.y - (toRat32 p0.y + w * (toRat32 p1.y - toRat32 p0.y))| < 1 / 4 := by
+  obtain ⟨p, he, h | h | h⟩ := positionAt_dist_err_float32 path lengths d a b hlen hs hbd ha hb hlo hhi hfin
+  · exact ⟨p, 0, p, p, 0, he, h.2, Or.inr rfl, le_refl _, zero_le_one, by norm_num, by norm_num⟩
+  · exact ⟨p, _, p, p, 0, he, h.2.1, Or.inr rfl, le_refl _, zero_le_one, by norm_num, by norm_num⟩
+  · obtain ⟨hi, p0, p1, d0, d1, hp0, hp1, _, _, _, _, _, _, ⟨hw0, hw1⟩, hx, hy⟩ := h
+    refine ⟨p, _, p0, p1, _, he, hp0, Or.inl ?_, hw0, hw1, lt_of_le_of_lt hx interpBound_lt_quarter,
+      lt_of_le_of_lt hy interpBound_lt_quarter⟩
+    rw [Nat.sub_add_cancel hi]; exact hp1
+
+/-! ## (3) through `progress_to_dist`: `position_at` -/
+
+/-- **C19 on IEEE floats: `position_at(progress)`** for a curve whose lengths start at `<= 0` (they start at `0`), are weakly
+sorted numbers with a finite non-negative total, and any progress that is a number (clamped to `[0, 1]` by the code): the
+distance `d = clamp(progress, 0, 1) · total` lies in `[0, total]` (`progress_to_dist_bounds_float`), so
+`positionAt_dist_err_float32` applies to `d`. -/
+theorem positionAt_progress_err_float32 (path : List (Pos Float32)) (lengths : List Float) (q a b : Float)
+    (hq : Scalar.isNaN q = false)
+    (hlen : path.length = lengths.length) (hs : Sorted lengths) (hbd : ∀ p ∈ path, C16.Bounded19 p)
+    (ha : lengths[0]? = some a) (hb : lengths.getLast? = some b)
+    (ha0 : Scalar.le a (0 : Float) = true) (hb0 : Scalar.le (0 : Float) b = true) (hbf : FX.Finite64 b)
+    (hfin : ∀ (p0 p1 : Pos Float32) (d0 d1 : Float),
+      path[idxOfDist lengths (progressToDist lengths q) - 1]? = some p0 →
+      path[idxOfDist lengths (progressToDist lengths q)]? = some p1 →
+      lengths[idxOfDist lengths (progressToDist lengths q) - 1]? = some d0 →
+      lengths[idxOfDist lengths (progressToDist lengths q)]? = some d1 →
+      Scalar.le (Scalar.abs (d0 - d1)) (Scalar.eps : Float) = false →
+      SegFinite p0 p1 (progressToDist lengths q) d0 d1) :
+    Scalar.le (0 : Float) (progressToDist lengths q) = true ∧ Scalar.le (progressToDist lengths q) b = true ∧
+    ∃ (p : Pos Float32) (k : Nat) (p0 p1 : Pos Float32) (w : ℚ),
+      positionAt path lengths q = .ok p ∧
+      path[k]? = some p0 ∧ (path[k + 1]? = some p1 ∨ p1 = p0) ∧ 0 ≤ w ∧ w ≤ 1 ∧
+      |toRat32 p.x - (toRat32 p0.x + w * (toRat32 p1.x - toRat32 p0.x))| < 1 / 4 ∧
+      |toRat32 p.y - (toRat32 p0.y + w * (toRat32 p1.y - toRat32 p0.y))| < 1 / 4 := by
+  have hdist : dist lengths = b := by unfold dist; rw [hb]
+  obtain ⟨h0, h1, _⟩ := progress_to_dist_bounds_float lengths q hq (by rw [hdist]; exact hbf) (by rw [hdist]; exact hb0)
+  rw [hdist] at h1
+  exact ⟨h0, h1, positionAt_dist_on_polyline_float32 path lengths _ a b hlen hs hbd ha hb
+    (FMO.le_trans _ _ _ ha0 h0) h1 hfin⟩
 
 end Rosu.C19
